@@ -1,10 +1,23 @@
 import PyxisVerif.Lemmas.CaseLift2
 /-!
-# Per-item theorems, lifted to every accepted case – part 2
+# Per-item theorems, lifted to every accepted case – part 2 (C03, C04, C05, C07, C11, C13, C14)
 
 `Props/CaseLift.lean` lifts C01, C06, C08, C15, C16, C17; this file lifts the per-item theorems of the remaining
-properties in the same way: hypotheses `c.ps = 4 ∨ c.ps = 8`, `C12.CaseBounded c`, `c.run = .ok s`; conclusions about
-every entry of the final registry `s.reg` / every emitted file.  Naming: `PyxisVerif.Cxx.case_<per-item name>`.
+properties in the same way: hypotheses `c.ps = 4 ∨ c.ps = 8`, `C12.CaseBounded c` (`isize` literals, what the parser
+produces), `c.run = .ok s`; conclusions about every entry of the final registry `s.reg` / every emitted file
+(`Emit.files s`).  Naming: `PyxisVerif.Cxx.case_<per-item name>`.
+
+As in part 1, a resolved struct of the final registry is either a generated `<T>Vftable` struct (first disjunct of most
+statements) or the result of an accepted build of a definition **written in a module of the case** (`CaseLift.Declared`),
+in a state whose registry the final registry extends (`C02.Ext`); whatever the per-item theorem reads from the registry
+is re-read in the *final* registry where that is possible, and otherwise in a registry `s0.reg` / `s1.reg` with
+`C02.Ext … s.reg` (name lookup is not monotone: a later registration can change what a name binds to).
+
+Two statements need the paths of the modules of the case to be pairwise distinct (`DistinctModulePaths`,
+`(astPaths c.modules).Nodup`): "every function written in a function block is present" (C05) and "every item is
+emitted in the file of its module" (C14).  Without it they are **false** – `add_module` replaces a stored module of the
+same path – and the refuting case is `CaseLift2.Dup.case` (`C05.case_declared_functions_present_refuted`,
+`C14.case_every_item_in_its_file_refuted`, at the end of the file).
 -/
 
 
@@ -16,8 +29,8 @@ open Gen Layout CaseLift CaseLift2
     from a field statement of the definition with that statement's `#[address]` and resolved type, `FieldOf`), `vptr` its
     own vftable pointer if it has one, and `t` the C03 description read off them **in the final registry**
     (`specType`: per field the written address and the size / alignment / array-ness of its type as the final registry
-    records them; `size` / `align` / `packed` of the definition), C03's `verdict` for `t` is *accepted with the size and
-    alignment of the emitted struct* -/
+    records them; `size` / `align` / `packed` of the definition), C03's `verdict` for `t` at the pointer width of the
+    case is *accepted with the size and alignment of the emitted struct* -/
 theorem case_verdict (c : Case) (hps : c.ps = 4 ∨ c.ps = 8) (hb : C12.CaseBounded c) (s : State)
     (h : c.run = .ok s) (p : Path) (i : ItemDef) (r : Resolved) (td : TypeDefn)
     (hg : s.reg.get p = some i) (hs : i.state = .res r) (hin : r.inner = .type td) (hc : i.cat = .defined) :
@@ -31,7 +44,7 @@ theorem case_verdict (c : Case) (hps : c.ps = 4 ∨ c.ps = 8) (hb : C12.CaseBoun
       (vptr = none ∨ ∃ vpath, vftablePath p = some vpath ∧ vptr = some (C06.ownPointer vpath)) ∧
       (∀ q ∈ sa.pending, ∃ n a, q.2.ty.size s.reg = .ok (some n) ∧ q.2.ty.align s.reg = some a ∧
         specField s.reg q = { addr := q.1, size := n, align := a, isArray := q.2.ty.isArray }) ∧
-      verdict s.reg.ps (specType s.reg vptr.isSome sa.pending ta) = .ok (r.size, r.align) := by
+      verdict c.ps (specType s.reg vptr.isSome sa.pending ta) = .ok (r.size, r.align) := by
   rcases case_layout_master c hps hb s h p i r td hg hs hin hc with hv |
     ⟨item, d, s0, module, ta, sa, vptr, placed, hD, hd, hmod, he, hta, hsa, hfo, hvp, hres, hal, _, _⟩
   · exact Or.inl hv
@@ -40,7 +53,8 @@ theorem case_verdict (c : Case) (hps : c.ps = 4 ∨ c.ps = 8) (hb : C12.CaseBoun
       obtain ⟨n, hn⟩ := (resolve_sizes _ _ _ _ _ hres).2 (toPField s.reg q.1 q.2) (List.mem_map.mpr ⟨q, hq, rfl⟩)
       obtain ⟨a, ha, hspec⟩ := specField_known s.reg q n hn
       exact ⟨n, a, hn, ha, hspec⟩
-    · refine verdict_of_layout s.reg vptr ?_ sa.pending ta placed r.size r.align hres hal
+    · rw [← case_ps c s h]
+      refine verdict_of_layout s.reg vptr ?_ sa.pending ta placed r.size r.align hres hal
       rcases hvp with h1 | ⟨vpath, _, h1⟩
       · exact Or.inl h1
       · exact Or.inr ⟨vpath, h1⟩
@@ -58,10 +72,10 @@ theorem case_accepts_iff_realisable (c : Case) (hps : c.ps = 4 ∨ c.ps = 8) (hb
       Res.foldlM typeAttrStep {} d.attrs = .ok ta ∧
       Res.foldlM (stmtStep s0.reg module.scope) {} (d.stmts.zipIdx.map fun q => (q.2, q.1)) = .ok sa ∧
       (vptr = none ∨ ∃ vpath, vftablePath p = some vpath ∧ vptr = some (C06.ownPointer vpath)) ∧
-      (verdict s.reg.ps (specType s.reg vptr.isSome sa.pending ta)).isOk = true ∧
-      (InDomain s.reg.ps (specType s.reg vptr.isSome sa.pending ta) →
-        Realisable s.reg.ps (specType s.reg vptr.isSome sa.pending ta) ∧
-        realisableB s.reg.ps (specType s.reg vptr.isSome sa.pending ta) = true) := by
+      (verdict c.ps (specType s.reg vptr.isSome sa.pending ta)).isOk = true ∧
+      (InDomain c.ps (specType s.reg vptr.isSome sa.pending ta) →
+        Realisable c.ps (specType s.reg vptr.isSome sa.pending ta) ∧
+        realisableB c.ps (specType s.reg vptr.isSome sa.pending ta) = true) := by
   rcases case_verdict c hps hb s h p i r td hg hs hin hc with hv |
     ⟨item, d, s0, module, ta, sa, vptr, hD, hd, hmod, he, hta, hsa, _, hvp, _, hver⟩
   · exact Or.inl hv
@@ -84,9 +98,9 @@ theorem case_accepted_size_align (c : Case) (hps : c.ps = 4 ∨ c.ps = 8) (hb : 
       Res.foldlM typeAttrStep {} d.attrs = .ok ta ∧
       Res.foldlM (stmtStep s0.reg module.scope) {} (d.stmts.zipIdx.map fun q => (q.2, q.1)) = .ok sa ∧
       (vptr = none ∨ ∃ vpath, vftablePath p = some vpath ∧ vptr = some (C06.ownPointer vpath)) ∧
-      (InDomain s.reg.ps (specType s.reg vptr.isSome sa.pending ta) →
-        r.size = totalSize s.reg.ps (specType s.reg vptr.isSome sa.pending ta) ∧
-        r.align = (if ta.packed then 1 else effAlign s.reg.ps (specType s.reg vptr.isSome sa.pending ta))) := by
+      (InDomain c.ps (specType s.reg vptr.isSome sa.pending ta) →
+        r.size = totalSize c.ps (specType s.reg vptr.isSome sa.pending ta) ∧
+        r.align = (if ta.packed then 1 else effAlign c.ps (specType s.reg vptr.isSome sa.pending ta))) := by
   rcases case_verdict c hps hb s h p i r td hg hs hin hc with hv |
     ⟨item, d, s0, module, ta, sa, vptr, hD, hd, hmod, he, hta, hsa, _, hvp, _, hver⟩
   · exact Or.inl hv
@@ -778,3 +792,614 @@ theorem case_layout_uses_binding (c : Case) (hps : c.ps = 4 ∨ c.ps = 8) (hb : 
         simp only [RTy.align, DTy.align, hgq, Option.bind_some, hbr, Option.map_some]
 
 end PyxisVerif.C11
+
+/-! ## C13 -/
+namespace PyxisVerif.C13
+open Gen Layout CaseLift CaseLift2
+
+/-- **`field_names_distinct` (E0124) and `base_fields_named`, for every accepted case.**  Every emitted struct of the
+    final registry is a generated vftable struct or was built from a definition written in the case, and then the named
+    fields the definition declares (the statement loop's pending fields) are pairwise distinct, every `#[base]` field
+    among them is named, and every field of the emitted struct is generated (private, undocumented: padding, the
+    vftable pointer) or one of these named declared fields; every `#[base]` field of the emitted struct is named -/
+theorem case_field_names_distinct (c : Case) (hps : c.ps = 4 ∨ c.ps = 8) (hb : C12.CaseBounded c) (s : State)
+    (h : c.run = .ok s) (p : Path) (i : ItemDef) (r : Resolved) (td : TypeDefn)
+    (hg : s.reg.get p = some i) (hs : i.state = .res r) (hin : r.inner = .type td) (hc : i.cat = .defined) :
+    (∃ (reg0 : Registry) (owner : Path) (vis : Vis) (fns : List SFunc),
+        buildVftableItem reg0 owner vis fns = some i ∧ i.path = p ∧ i.vis = vis ∧
+        td = { regions := fns.map (functionToRegion owner) }) ∨
+    ∃ (item : G.Item) (d : G.TypeDef) (s0 : State) (module : Mod) (sa : StmtAcc),
+      Declared c p item ∧ item.inner = .type d ∧ s0.moduleFor p = some module ∧ C02.Ext s0.reg s.reg ∧
+      Res.foldlM (stmtStep s0.reg module.scope) {} (d.stmts.zipIdx.map fun q => (q.2, q.1)) = .ok sa ∧
+      (sa.pending.filterMap (·.2.name)).Nodup ∧
+      (∀ q ∈ sa.pending, q.2.isBase = true → q.2.name.isSome = true) ∧
+      (∀ rg ∈ td.regions, (rg.vis = .priv ∧ rg.doc = none) ∨ (rg.name.isSome ∧ rg ∈ sa.pending.map (·.2))) ∧
+      (∀ rg ∈ td.regions, rg.isBase = true → rg.name.isSome = true) := by
+  rcases case_stmts_master c hps hb s h p i r td hg hs hin hc with hv |
+    ⟨item, d, s0, s1, module, sa, hD, hd, hmod, he01, he, hsa, hregs, _, _⟩
+  · exact Or.inl hv
+  · refine Or.inr ⟨item, d, s0, module, sa, hD, hd, hmod, he01.trans he, hsa,
+      field_names_distinct s0.reg module.scope _ sa hsa, base_fields_named s0.reg module.scope _ sa hsa, hregs, ?_⟩
+    intro rg hrg hbase
+    rcases case_fns_exact c hps hb s h p i r td hg hs hin hc with ⟨_, _, hnb⟩ | ⟨_, _, _, _, _, _, _, _, _, hbases, _⟩
+    · rw [hnb rg hrg] at hbase; cases hbase
+    · obtain ⟨b, _, _, hname, _⟩ := hbases rg hrg hbase
+      rw [hname]; rfl
+
+/-- **`base_fields_named`, for every accepted case** (the accessor and the forwarders refer to base fields by name):
+    every `#[base]` field of every emitted struct of the final registry is a named field whose type is a resolved struct
+    in the final registry -/
+theorem case_base_fields_named (c : Case) (hps : c.ps = 4 ∨ c.ps = 8) (hb : C12.CaseBounded c) (s : State)
+    (h : c.run = .ok s) (p : Path) (i : ItemDef) (r : Resolved) (td : TypeDefn)
+    (hg : s.reg.get p = some i) (hs : i.state = .res r) (hin : r.inner = .type td) (hc : i.cat = .defined) :
+    ∀ rg ∈ td.regions, rg.isBase = true →
+      ∃ b bp btd, rg.name = some b ∧ rg.ty = .data (.raw bp) ∧ Exec.typeDefn? s.reg bp = some btd := by
+  intro rg hrg hbase
+  rcases case_fns_exact c hps hb s h p i r td hg hs hin hc with ⟨_, _, hnb⟩ | ⟨_, _, _, _, _, _, _, _, _, hbases, _⟩
+  · rw [hnb rg hrg] at hbase; cases hbase
+  · obtain ⟨b, bp, btd, h1, h2, h3, _⟩ := hbases rg hrg hbase
+    exact ⟨b, bp, btd, h1, h2, h3⟩
+
+/-- **`enum_cases_distinct` (E0084, E0081, E0428), for every accepted case**: every resolved enum of the final registry
+    has at least one case, and its cases have pairwise distinct names and pairwise distinct values -/
+theorem case_enum_cases_distinct (c : Case) (hps : c.ps = 4 ∨ c.ps = 8) (hb : C12.CaseBounded c) (s : State)
+    (h : c.run = .ok s) (p : Path) (i : ItemDef) (r : Resolved) (ed : EnumDefn)
+    (hg : s.reg.get p = some i) (hs : i.state = .res r) (hin : r.inner = .enum ed) :
+    ed.fields ≠ [] ∧ (ed.fields.map (·.1)).Nodup ∧ (ed.fields.map (·.2)).Nodup := by
+  obtain ⟨s0, item, d, _, _, _, _, _, _, hbe, _, _⟩ := case_enum_origin c hps hb s h p i r ed hg hs hin
+  obtain ⟨ed', hin', h1, h2, h3⟩ := enum_cases_distinct s0 p d r hbe
+  rw [hin] at hin'
+  cases hin'
+  exact ⟨h1, h2, h3⟩
+
+/-- **`align_is_pow2` (E0589), for every accepted case**: the alignment of every resolved item of the final registry –
+    in particular the `N` written into `repr(C, align(N))` of every emitted struct that is not packed – is a power of
+    two -/
+theorem case_align_is_pow2 (c : Case) (hps : c.ps = 4 ∨ c.ps = 8) (hb : C12.CaseBounded c) (s : State)
+    (h : c.run = .ok s) (p : Path) (i : ItemDef) (r : Resolved) (hg : s.reg.get p = some i) (hs : i.state = .res r) :
+    (∃ k, r.align = 2 ^ k) ∧
+    ∀ td, r.inner = .type td → i.cat = .defined →
+      ∃ docs derives rest tl, Emit.itemItems s.reg i =
+        Sexp.mk "struct" (docs :: derives ::
+          Sexp.mk "repr" (if td.packed then [.str "C", .str "packed"]
+            else [.str "C", .str ("align(" ++ toString r.align ++ ")")]) :: rest) :: tl := by
+  refine ⟨?_, ?_⟩
+  · obtain ⟨s1, ms, hJ, _, rfl⟩ := case_J c hps hb s h
+    have := (hJ.1.ok.reg.aligns p i r hg hs).1
+    unfold Layout.isPow2 at this
+    simp only [Bool.and_eq_true, bne_iff_ne, ne_eq, beq_iff_eq] at this
+    exact ⟨_, this.2.symm⟩
+  · intro td hin hc
+    rw [itemItems_type s.reg i r td hc hs hin]
+    exact C17.packed_no_align s.reg i.path r.size r.align i.vis td
+
+/-- … and for a struct built from a definition that is not `#[packed]` this is the per-item theorem applied to the
+    alignment block run, in the final registry, on the struct's placed fields -/
+theorem case_align_is_pow2_block (c : Case) (hps : c.ps = 4 ∨ c.ps = 8) (hb : C12.CaseBounded c) (s : State)
+    (h : c.run = .ok s) (p : Path) (i : ItemDef) (r : Resolved) (td : TypeDefn)
+    (hg : s.reg.get p = some i) (hs : i.state = .res r) (hin : r.inner = .type td) (hc : i.cat = .defined) :
+    (∃ (reg0 : Registry) (owner : Path) (vis : Vis) (fns : List SFunc),
+      buildVftableItem reg0 owner vis fns = some i ∧ i.path = p) ∨
+    ∃ (item : G.Item) (d : G.TypeDef) (ta : TypeAttrs) (placed : List (Placed Region)),
+      Declared c p item ∧ item.inner = .type d ∧ Res.foldlM typeAttrStep {} d.attrs = .ok ta ∧
+      td.packed = ta.packed ∧ alignCheck s.reg.ps ta.packed ta.align placed r.size = .ok r.align ∧
+      (td.packed = false → ∃ k, r.align = 2 ^ k) := by
+  rcases case_layout_master c hps hb s h p i r td hg hs hin hc with hv |
+    ⟨item, d, s0, module, ta, sa, vptr, placed, hD, hd, _, _, hta, _, _, _, _, hal, _, hpk⟩
+  · exact Or.inl hv
+  · refine Or.inr ⟨item, d, ta, placed, hD, hd, hta, hpk, hal, ?_⟩
+    intro hnp
+    rw [hpk] at hnp
+    rw [hnp] at hal
+    exact align_is_pow2 s.reg.ps ta.align placed r.size r.align hal
+
+/-- **`copy_implies_clone` (E0204), for every accepted case**: whenever the struct item emitted for a struct of the
+    final registry derives `Copy`, it derives `Clone` too -/
+theorem case_copy_implies_clone (c : Case) (hps : c.ps = 4 ∨ c.ps = 8) (hb : C12.CaseBounded c) (s : State)
+    (h : c.run = .ok s) (p : Path) (i : ItemDef) (r : Resolved) (td : TypeDefn)
+    (hg : s.reg.get p = some i) (hs : i.state = .res r) (hin : r.inner = .type td) (hc : i.cat = .defined) :
+    ("Copy" ∈ Emit.derivesOf td.copyable td.cloneable td.defaultable →
+      "Clone" ∈ Emit.derivesOf td.copyable td.cloneable td.defaultable) ∧
+    ∃ docs rest tl, Emit.itemItems s.reg i =
+      Sexp.mk "struct" (docs ::
+        Sexp.mk "derives" ((Emit.derivesOf td.copyable td.cloneable td.defaultable).map .str) :: rest) :: tl := by
+  refine ⟨?_, ?_⟩
+  · rcases C17.case_type_flags c hps hb s h p i r td hg hs hin hc with ⟨_, hnil, _⟩ | ⟨item, d, _, _, hder, _⟩
+    · rw [hnil]; intro hx; cases hx
+    · rw [hder]; exact copy_implies_clone d.attrs
+  · obtain ⟨tl, htl⟩ := C17.typeItems_head s.reg i.path r.size r.align i.vis td
+    rw [itemItems_type s.reg i r td hc hs hin, htl]
+    exact ⟨_, _, tl, rfl⟩
+
+/-- … and the same for every resolved enum (after the five fixed derives) -/
+theorem case_enum_copy_implies_clone (c : Case) (hps : c.ps = 4 ∨ c.ps = 8) (hb : C12.CaseBounded c) (s : State)
+    (h : c.run = .ok s) (p : Path) (i : ItemDef) (r : Resolved) (ed : EnumDefn)
+    (hg : s.reg.get p = some i) (hs : i.state = .res r) (hin : r.inner = .enum ed) :
+    ∃ (item : G.Item) (d : G.EnumDef), Declared c p item ∧ item.inner = .enum d ∧
+      ("Copy" ∈ C17.specDerives d.attrs → "Clone" ∈ C17.specDerives d.attrs) ∧
+      ∃ rest tl, Emit.itemItems s.reg i =
+        Sexp.mk "enum" (Emit.docsS ed.doc ::
+          Sexp.mk "derives" ((["PartialEq", "Eq", "PartialOrd", "Ord", "Debug"] ++ C17.specDerives d.attrs).map .str) ::
+          rest) :: tl := by
+  obtain ⟨item, d, hD, hd, _, _, hem⟩ := C17.case_enum_flags c hps hb s h p i r ed hg hs hin
+  exact ⟨item, d, hD, hd, copy_implies_clone d.attrs, hem⟩
+
+/-- **`defaultable_fields` (E0277), for every accepted case**: in every `defaultable` struct of the final registry no
+    field is a pointer or function pointer, and the type every field is made of (the element type of an array) is, in
+    the **final** registry, a resolved item that is itself defaultable -/
+theorem case_defaultable_fields (c : Case) (hps : c.ps = 4 ∨ c.ps = 8) (hb : C12.CaseBounded c) (s : State)
+    (h : c.run = .ok s) (p : Path) (i : ItemDef) (r : Resolved) (td : TypeDefn)
+    (hg : s.reg.get p = some i) (hs : i.state = .res r) (hin : r.inner = .type td) (hc : i.cat = .defined)
+    (hdef : td.defaultable = true) :
+    ∀ rg ∈ td.regions, ∃ q item res, defaultablePath rg.ty = some q ∧ s.reg.get q = some item ∧
+      item.state = .res res ∧ res.inner.defaultable = true := by
+  rcases case_stmts_master c hps hb s h p i r td hg hs hin hc with ⟨_, _, _, _, _, _, _, htd⟩ |
+    ⟨item, d, s0, s1, module, sa, hD, hd, hmod, he01, he, hsa, hregs, hck, hflds⟩
+  · rw [htd] at hdef; cases hdef
+  · intro rg hrg
+    obtain ⟨q, item', hq, hget, hres⟩ := defaultable_fields s1.reg td.regions (hck hdef) rg hrg
+    obtain ⟨f, hf⟩ := hflds rg hrg
+    have hresd : ∃ it res, s1.reg.get q = some it ∧ it.state = .res res := by
+      unfold Exec.fldOf at hf
+      simp only [Option.map_eq_some_iff] at hf
+      obtain ⟨x, hx, _⟩ := hf
+      cases hty : rg.ty with
+      | data t =>
+        rw [hty] at hx hq
+        exact tyLayout_defaultablePath s1.reg t x q hx hq
+      | fn cc args ret => rw [hty] at hq; cases hq
+    obtain ⟨it, res, hg1, hst⟩ := hresd
+    rw [hget] at hg1
+    cases hg1
+    exact ⟨q, item', res, hq, he.res hget hst, hst, hres res hst⟩
+
+/-- **`vfuncs_have_receiver` (E0424), for every accepted case**: every virtual function written in the vftable block of
+    the definition of an emitted struct of the final registry has a `&self` / `&mut self` parameter -/
+theorem case_vfuncs_have_receiver (c : Case) (hps : c.ps = 4 ∨ c.ps = 8) (hb : C12.CaseBounded c) (s : State)
+    (h : c.run = .ok s) (p : Path) (i : ItemDef) (r : Resolved) (td : TypeDefn)
+    (hg : s.reg.get p = some i) (hs : i.state = .res r) (hin : r.inner = .type td) (hc : i.cat = .defined) :
+    (∃ (reg0 : Registry) (owner : Path) (vis : Vis) (fns : List SFunc),
+        buildVftableItem reg0 owner vis fns = some i ∧ i.path = p ∧ i.vis = vis ∧
+        td = { regions := fns.map (functionToRegion owner) }) ∨
+    ∃ (item : G.Item) (d : G.TypeDef),
+      Declared c p item ∧ item.inner = .type d ∧
+      ∀ st gfns, d.stmts[0]? = some st → st.field = .vftable gfns → ∀ f ∈ gfns, hasReceiver f = true := by
+  rcases case_stmts_master c hps hb s h p i r td hg hs hin hc with hv |
+    ⟨item, d, s0, s1, module, sa, hD, hd, hmod, he01, he, hsa, _⟩
+  · exact Or.inl hv
+  · refine Or.inr ⟨item, d, hD, hd, ?_⟩
+    intro st gfns hst hf f hfm
+    cases hstmts : d.stmts with
+    | nil => rw [hstmts] at hst; simp at hst
+    | cons st0 rest =>
+      rw [hstmts] at hst hsa
+      simp only [List.getElem?_cons_zero, Option.some.injEq] at hst
+      subst hst
+      simp only [List.zipIdx_cons, List.map_cons] at hsa
+      unfold Res.foldlM at hsa
+      split at hsa
+      · next acc1 h1 => exact vfuncs_have_receiver s0.reg module.scope {} acc1 0 st0 gfns hf h1 f hfm
+      all_goals cases hsa
+
+end PyxisVerif.C13
+
+/-! ## C14 -/
+namespace PyxisVerif.C14
+open Gen Layout CaseLift CaseLift2
+
+/-- **`files_per_module` and `file_name`, for every accepted case: one file per (non-root) module of the case, named
+    after the module path.**  The keys of the stored modules of the final state are pairwise distinct; there is one file
+    per stored non-root module; every emitted file is the file of a stored module whose path is the path of a module
+    **written in the case**, and is named `<path>.rs` (`specFile`); conversely every non-root module path of the case has
+    exactly one stored module, whose file is emitted -/
+theorem case_files_per_module (c : Case) (hps : c.ps = 4 ∨ c.ps = 8) (hb : C12.CaseBounded c) (s : State)
+    (h : c.run = .ok s) :
+    (s.modules.map (·.1)).Nodup ∧
+    (Emit.files s).length = (s.modules.filter fun e => !e.1.isEmpty).length ∧
+    (∀ f ∈ Emit.files s, ∃ e ∈ s.modules, e.1 ≠ [] ∧ (∃ file m, ModEnt.ast e.1 file m ∈ c.modules) ∧
+      f = Emit.moduleFile s e.1 e.2 ∧ ∃ body, f = Sexp.mk "file" [.str (specFile e.1), body]) ∧
+    (∀ path file m, ModEnt.ast path file m ∈ c.modules → path ≠ [] →
+      ∃ md, (path, md) ∈ s.modules ∧ (∀ md', (path, md') ∈ s.modules → md' = md) ∧
+        Emit.moduleFile s path md ∈ Emit.files s) := by
+  have hinv := case_modInv c s h
+  refine ⟨hinv.keys, (files_per_module s).1, ?_, ?_⟩
+  · intro f hf
+    obtain ⟨e, he, hne, rfl⟩ := (files_per_module s).2 f hf
+    refine ⟨e, he, hne, ?_, rfl, file_name s e.1 e.2⟩
+    rcases (case_modules_src c hps hb s h e he).2 with ⟨h0, _⟩ | ⟨file, m, hm, _⟩
+    · exact absurd h0 hne
+    · exact ⟨file, m, hm⟩
+  · intro path file m hm hne
+    obtain ⟨md, hmd⟩ := case_modules_present c s h path file m hm
+    refine ⟨md, hmd, ?_, moduleFile_mem_files s (path, md) hmd hne⟩
+    intro md' hmd'
+    have h1 := lookup_of_mem_nodup s.modules hinv.keys path md hmd
+    have h2 := lookup_of_mem_nodup s.modules hinv.keys path md' hmd'
+    rw [h1] at h2
+    cases h2; rfl
+
+/-- **`only_defined_emitted`, for every accepted case: a file contains only items of defined category of its module.**
+    Every item of every emitted file is a backend block, the accessor of an extern value of the module, or one of the
+    items printed for an entry `i` of the final registry that is listed in the module's definition paths under its own
+    path `q`, is a child of the module's path, is of *defined* category and is resolved; and entries of any other
+    category (built-in, extern) print nothing -/
+theorem case_only_defined_emitted (c : Case) (hps : c.ps = 4 ∨ c.ps = 8) (hb : C12.CaseBounded c) (s : State)
+    (h : c.run = .ok s) :
+    (∀ f ∈ Emit.files s, ∀ x ∈ fileItems f,
+      ∃ e ∈ s.modules, e.1 ≠ [] ∧ f = Emit.moduleFile s e.1 e.2 ∧
+        (Sexp.head? x = some "opaque-block" ∨
+         (∃ q ∈ e.2.defPaths, ∃ i, s.reg.get q = some i ∧ i.path = q ∧ Path.parent? q = some e.1 ∧
+            i.cat = .defined ∧ (∃ r, i.state = .res r) ∧ x ∈ Emit.itemItems s.reg i) ∨
+         (∃ xv ∈ e.2.xvals, x = Emit.xvalItem xv))) ∧
+    (∀ p i, s.reg.get p = some i → i.cat ≠ .defined → Emit.itemItems s.reg i = []) := by
+  have hinv := case_modInv c s h
+  obtain ⟨s1, ms, hJ, _, hs⟩ := case_J c hps hb s h
+  have hwk : ∀ p i, s.reg.get p = some i → i.path = p := by
+    subst hs
+    exact hJ.1.ok.reg.wellKeyed
+  refine ⟨?_, fun p i _ hc => only_defined_emitted s.reg i hc⟩
+  intro f hf x hx
+  obtain ⟨e, he, hne, hfe, hcases⟩ := files_items s f hf x hx
+  refine ⟨e, he, hne, hfe, ?_⟩
+  rcases hcases with hb' | ⟨q, hq, i, hg, hxi⟩ | hxv
+  · exact Or.inl hb'
+  · obtain ⟨hc, hr⟩ := itemItems_inv s.reg i x hxi
+    exact Or.inr (Or.inl ⟨q, hq, i, hg, hwk q i hg, hinv.parent e he q hq, hc, hr, hxi⟩)
+  · exact Or.inr (Or.inr hxv)
+
+/-- **`defPaths_nodup`, for every accepted case: each definition is listed – and so emitted – once.**  In the final
+    state the definition paths of every stored module are pairwise distinct, each is an entry of the final registry, and
+    the entries the module's file is printed from are pairwise distinct -/
+theorem case_defPaths_nodup (c : Case) (hps : c.ps = 4 ∨ c.ps = 8) (hb : C12.CaseBounded c) (s : State)
+    (h : c.run = .ok s) :
+    ∀ e ∈ s.modules, e.2.defPaths.Nodup ∧ (∀ q ∈ e.2.defPaths, ∃ i, s.reg.get q = some i ∧ i.path = q) ∧
+      (e.2.defPaths.filterMap s.reg.get).Nodup := by
+  have hinv := case_modInv c s h
+  obtain ⟨s1, ms, hJ, _, hs⟩ := case_J c hps hb s h
+  have hwk : ∀ p i, s.reg.get p = some i → i.path = p := by
+    subst hs
+    exact hJ.1.ok.reg.wellKeyed
+  intro e he
+  refine ⟨hinv.nodup e he, ?_, ?_⟩
+  · intro q hq
+    have := hinv.listed e he q hq
+    unfold Registry.contains at this
+    cases hg : s.reg.get q with
+    | none => rw [hg] at this; cases this
+    | some i => exact ⟨i, rfl, hwk q i hg⟩
+  · have hn : List.Pairwise (· ≠ ·) e.2.defPaths := hinv.nodup e he
+    show List.Pairwise (· ≠ ·) (e.2.defPaths.filterMap s.reg.get)
+    refine List.Pairwise.filterMap s.reg.get ?_ hn
+    intro a a' hne b hb1 b' hb2 hbb
+    apply hne
+    subst hbb
+    rw [← hwk a b hb1, ← hwk a' b hb2]
+
+/-- **every item of a non-root module is emitted in the file of its module**, for every accepted case whose module
+    paths are pairwise distinct (without this hypothesis the statement is false: `add_module` replaces a stored module of
+    the same path, whose definition paths start empty again).  Every entry `i` of the final registry registered under
+    `q = par ++ [name]` with `par` a non-root module path is listed in the definition paths of the one module stored
+    under `par`, whose file `<par>.rs` is emitted and contains every item printed for `i` -/
+theorem case_every_item_in_its_file (c : Case) (hnd : (astPaths c.modules).Nodup) (s : State) (h : c.run = .ok s)
+    (q : Path) (i : ItemDef) (par : Path) (hg : s.reg.get q = some i) (hp : Path.parent? q = some par) (hne : par ≠ []) :
+    ∃ md, (par, md) ∈ s.modules ∧ (∀ md', (par, md') ∈ s.modules → md' = md) ∧ q ∈ md.defPaths ∧
+      Emit.moduleFile s par md ∈ Emit.files s ∧
+      (∃ body, Emit.moduleFile s par md = Sexp.mk "file" [.str (specFile par), body]) ∧
+      ∀ x ∈ Emit.itemItems s.reg i, x ∈ fileItems (Emit.moduleFile s par md) := by
+  have hinv := case_modInv c s h
+  obtain ⟨md, hmd, hq⟩ := case_listed c hnd s h q i par hg hp hne
+  refine ⟨md, hmd, ?_, hq, moduleFile_mem_files s (par, md) hmd hne, file_name s par md,
+    itemItems_in_file s par md q i hq hg⟩
+  intro md' hmd'
+  have h1 := lookup_of_mem_nodup s.modules hinv.keys par md hmd
+  have h2 := lookup_of_mem_nodup s.modules hinv.keys par md' hmd'
+  rw [h1] at h2
+  cases h2; rfl
+
+end PyxisVerif.C14
+
+/-! ## C05, continued: the wrapper is in the module's file -/
+namespace PyxisVerif.C05
+open Gen Layout CaseLift CaseLift2
+
+/-- **the wrapper of every declared function is emitted in the file of the type's module**, for every accepted case
+    whose module paths are pairwise distinct: for every emitted struct `p = path ++ [name]` of a non-root module built
+    from a definition written in the case, the file `<path>.rs` of the one module stored under `path` is emitted and
+    contains the struct's `impl` item, which lists the wrapper of every function written in a function block for `p` in
+    the case – the transmute-and-call of the declared address – except those whose name starts with `_`, which the
+    backend filters -/
+theorem case_wrapper_in_file (c : Case) (hps : c.ps = 4 ∨ c.ps = 8) (hb : C12.CaseBounded c) (s : State)
+    (h : c.run = .ok s) (hnd : (astPaths c.modules).Nodup) (p : Path) (i : ItemDef) (r : Resolved) (td : TypeDefn)
+    (hg : s.reg.get p = some i) (hs : i.state = .res r) (hin : r.inner = .type td) (hc : i.cat = .defined)
+    (hroot : 2 ≤ p.length) :
+    ((∃ (reg0 : Registry) (owner : Path) (vis : Vis) (fns : List SFunc),
+        buildVftableItem reg0 owner vis fns = some i ∧ i.path = p) ∧ td.fns = []) ∨
+    ∃ (item : G.Item) (path : Path) (md : Mod) (acc : Sexp) (methods : List Sexp),
+      Declared c p item ∧ p = path ++ [item.name] ∧ (path, md) ∈ s.modules ∧
+      Emit.moduleFile s path md ∈ Emit.files s ∧
+      (∃ body, Emit.moduleFile s path md = Sexp.mk "file" [.str (C14.specFile path), body]) ∧
+      Sexp.mk "impl" (.str (p.getLast?.getD "") :: acc :: methods) ∈ fileItems (Emit.moduleFile s path md) ∧
+      ∀ gf, DeclaredFn c p gf →
+        ∃ (sf : SFunc) (a : Int), sf ∈ td.fns ∧ sf.name = gf.name ∧ declAddress gf = some a ∧ 0 ≤ a ∧
+          sf.body = .addr a.toNat ∧
+          Emit.methodS sf = Sexp.mk "method" [Emit.docsS sf.doc, Emit.visS sf.vis, .str sf.name,
+            Sexp.mk "params" (sf.args.map Emit.paramS), Emit.optTyS sf.ret,
+            Sexp.mk "call-addr" [.int a.toNat, .str sf.cc.asStr, Sexp.mk "sig" (sf.args.map Emit.sigArgS),
+              Emit.optTyS sf.ret, Sexp.mk "args" (sf.args.map Emit.callArgS)]] ∧
+          sf.isInternal = gf.name.startsWith "_" ∧
+          (gf.name.startsWith "_" = false → Emit.methodS sf ∈ methods) := by
+  rcases case_declared_functions_present c hps hb s h (distinctModulePaths_of_nodup c hnd) p i r td hg hs hin hc hroot with
+    hv | ⟨item, d, s1, path, file, m, hD, hd, hm, hp, he, acc, methods, himpl, hall⟩
+  · exact Or.inl hv
+  · right
+    have hpne : path ≠ [] := by
+      intro e
+      rw [hp, e] at hroot
+      simp at hroot
+    obtain ⟨md, hmd, _, hq, hfile, hname, hitems⟩ := C14.case_every_item_in_its_file c hnd s h p i path hg
+      (by rw [hp]; exact parent_append path item.name) hpne
+    refine ⟨item, path, md, acc, methods, hD, hp, hmd, hfile, hname, hitems _ himpl, ?_⟩
+    intro gf hgf
+    obtain ⟨sf, a, k1, _, k3, k4, k5, _, _, k8, _, k10, k11, k12⟩ := hall gf hgf
+    exact ⟨sf, a, k1, k8, k3, k4, k5, k10, k11, k12⟩
+
+end PyxisVerif.C05
+
+/-! ## non-vacuity: the lifted theorems on a concrete accepted case
+
+`Exec.Example.case` (`Props/Exec.lean`: module `m` with `B` – a vftable block `v`, `#[index(2)] w` and a field – with
+`impl B { #[address(0x1000)] pub fn a(..) }`, and `D` with `#[base] b: B`) is accepted (`run_ok`) and bounded
+(`case_bounded`).  Each example obtains the final state from acceptance alone and gets its conclusion *from the lifted
+theorem*; evaluation (`decide +kernel`) is only used to look entries up in the final registry and to identify the
+declared definition among the case's modules. -/
+namespace PyxisVerif.CaseLift2.Example
+open Gen CaseLift CaseLift2
+
+/-- the first `#[base]` field of `m::D` -/
+def baseD : Region := ((Exec.Example.tdD.regions.filter (fun r => r.isBase))[0]?).getD default
+def itemB : ItemDef := (Exec.Example.s1.reg.get ["m", "B"]).getD default
+def resB : Resolved := itemB.resolved?.getD default
+
+/-- **`C04.case_slots`** on `Exec.Example.case`: `m::B` of the final registry has a table; by the theorem it is the
+    conversion of the vftable block of the definition written in the case, whose functions sit in the slots the
+    description says – `v` in slot 0, `w` (written `#[index(2)]`) in slot 2 –, slot 1 holds the placeholder `_vfunc_1`,
+    and the table has exactly the three slots needed -/
+example : ∃ (s : State) (v : Vft), Exec.Example.case.run = .ok s ∧ Exec.Example.tdB.vft = some v ∧
+    v.fns.length = 3 ∧ v.fns[1]? = some (placeholderFn 1) ∧
+    (∃ f, v.fns[0]? = some f ∧ f.name = "v") ∧ (∃ f, v.fns[2]? = some f ∧ f.name = "w") := by
+  obtain ⟨s, hs⟩ := (C09.isOkB_iff _).mp Exec.Example.run_ok
+  have hreg := Exec.Example.run_reg s hs
+  have hget : s.reg.get ["m", "B"] = some itemB := by rw [hreg]; decide +kernel
+  have hst : itemB.state = .res resB := by decide +kernel
+  have hin : resB.inner = .type Exec.Example.tdB := by decide +kernel
+  have hv : Exec.Example.tdB.vft = some ((Exec.Example.tdB.vft).getD default) := by decide +kernel
+  refine ⟨s, _, hs, hv, ?_⟩
+  rcases C04.case_slots Exec.Example.case (Or.inr rfl) Exec.Example.case_bounded s hs ["m", "B"] itemB resB
+    Exec.Example.tdB hget hst hin (by decide +kernel) with ⟨_, hnone⟩ | ⟨item, d, s0, module, hD, hd, hmod, he, hblock⟩
+  · rw [hnone] at hv; cases hv
+  · -- the declared definition registered under `m::B` is the second definition of module `m`
+    obtain ⟨path, file, m, hm, hmem, hp⟩ := hD
+    simp only [Exec.Example.case, List.mem_cons, List.not_mem_nil, or_false, ModEnt.ast.injEq] at hm
+    obtain ⟨rfl, rfl, rfl⟩ := hm
+    have hname : item.name = "B" := by
+      simp only [List.cons_append, List.nil_append, List.cons.injEq, and_true, true_and] at hp
+      exact hp.symm
+    simp only [Exec.Example.modM, List.mem_cons, List.not_mem_nil, or_false] at hmem
+    rcases hmem with rfl | rfl
+    · exact absurd hname (by decide)
+    · simp only [G.Inner.type.injEq] at hd
+      subst hd
+      obtain ⟨size, out, pos, built, len, hsize, hout, _, hpos, hbuilt, hlen, hspec, holen, hz, hph⟩ :=
+        hblock _ [Exec.Example.gfV, Exec.Example.gfW] rfl rfl
+      have hvo := hout _ hv
+      have hsz : size = none := by
+        have : vftableSizeAttr ([] : List G.Attr) = .ok none := rfl
+        rw [this] at hsize; cases hsize; rfl
+      subst hsz
+      have hp2 : C04.specPositions 0 ([Exec.Example.gfV, Exec.Example.gfW].map C04.declIndex) = some [0, 2] := by decide
+      rw [hp2] at hpos
+      cases hpos
+      have hl3 : len = 3 := by
+        have : C04.specLength none [0, 2] = some 3 := by decide
+        rw [this] at hspec; cases hspec; rfl
+      subst hl3
+      rw [hvo]
+      refine ⟨holen, hph 1 (by rw [holen]; decide) (by decide), ?_, ?_⟩
+      · -- slot 0 holds the function built from `v`
+        obtain ⟨hl, hpt⟩ := C15.mapM'_ok _ _ built hbuilt
+        have hb0 := hpt 0 (by decide) (by rw [← hlen]; decide)
+        refine ⟨built[0]'(by rw [← hlen]; decide), ?_, (C04.vfunc_body _ _ _ _ hb0).2⟩
+        apply hz (0, built[0]'(by rw [← hlen]; decide))
+        rw [List.mem_iff_getElem?]
+        refine ⟨0, ?_⟩
+        rw [List.getElem?_zip_eq_some]
+        exact ⟨rfl, List.getElem?_eq_getElem _⟩
+      · -- slot 2 holds the function built from `w`
+        obtain ⟨hl, hpt⟩ := C15.mapM'_ok _ _ built hbuilt
+        have hb1 := hpt 1 (by decide) (by rw [← hlen]; decide)
+        refine ⟨built[1]'(by rw [← hlen]; decide), ?_, (C04.vfunc_body _ _ _ _ hb1).2⟩
+        apply hz (2, built[1]'(by rw [← hlen]; decide))
+        rw [List.mem_iff_getElem?]
+        refine ⟨1, ?_⟩
+        rw [List.getElem?_zip_eq_some]
+        exact ⟨rfl, List.getElem?_eq_getElem _⟩
+
+/-- **`C07.case_every_public_reexposed`** on `Exec.Example.case`: the first `#[base]` field of `m::D` in the final
+    registry is `b`; by the theorem its type is a resolved struct of the final registry – `m::B`, the only base – every
+    public function of which is re-exposed on `D`: so `D` has a function forwarding to `B::a` on field `b`, with `a`'s
+    parameters -/
+example : ∃ (s : State) (g f : SFunc), Exec.Example.case.run = .ok s ∧ g ∈ Exec.Example.tdD.fns ∧
+    f ∈ Exec.Example.tdB.fns ∧ f.name = "a" ∧ g.body = .field "b" "a" ∧ g.args = f.args ∧ g.ret = f.ret ∧ g.cc = f.cc := by
+  obtain ⟨s, hs⟩ := (C09.isOkB_iff _).mp Exec.Example.run_ok
+  have hreg := Exec.Example.run_reg s hs
+  have hget : s.reg.get ["m", "D"] = some Exec.Example.itemD := by rw [hreg]; decide +kernel
+  have hst : Exec.Example.itemD.state = .res Exec.Example.resD := by decide +kernel
+  have hin : Exec.Example.resD.inner = .type Exec.Example.tdD := by decide +kernel
+  have hk : (Exec.Example.tdD.regions.filter (·.isBase))[0]? = some baseD := by decide +kernel
+  obtain ⟨b, bp, btd, hname, hty, hbtd, hall, _⟩ :=
+    C07.case_every_public_reexposed Exec.Example.case (Or.inr rfl) Exec.Example.case_bounded s hs ["m", "D"]
+      Exec.Example.itemD Exec.Example.resD Exec.Example.tdD hget hst hin (by decide +kernel) 0 baseD hk
+  have hb : baseD.name = some "b" := by decide +kernel
+  have ht : baseD.ty = .data (.raw ["m", "B"]) := by decide +kernel
+  rw [hb] at hname; cases hname
+  rw [ht] at hty; cases hty
+  rw [hreg, Exec.Example.hB] at hbtd; cases hbtd
+  have hf : ∃ f ∈ Exec.Example.tdB.fns, f.name = "a" ∧ f.vis = .pub ∧ f.isInternal = false :=
+    ⟨Exec.Example.tdB.fns.headD default, by decide +kernel, by decide +kernel, by decide +kernel, by decide +kernel⟩
+  obtain ⟨f, hfm, hfn, hpub, hint⟩ := hf
+  obtain ⟨g, hg, hbody, _, hargs, hret, hcc, _⟩ := hall f hfm hpub hint
+  exact ⟨s, g, f, hs, hg, hfm, hfn, by rw [hbody, hfn], hargs, hret, hcc⟩
+
+/-- **`C14.case_files_per_module`** on `Exec.Example.case`: by the theorem, the module `m` written in the case has exactly
+    one stored module in the final state, and its file `m.rs` is emitted -/
+example : ∃ (s : State) (md : Mod) (body : Sexp), Exec.Example.case.run = .ok s ∧ (["m"], md) ∈ s.modules ∧
+    Emit.moduleFile s ["m"] md ∈ Emit.files s ∧ Emit.moduleFile s ["m"] md = Sexp.mk "file" [.str "m.rs", body] := by
+  obtain ⟨s, hs⟩ := (C09.isOkB_iff _).mp Exec.Example.run_ok
+  obtain ⟨_, _, _, hall⟩ := C14.case_files_per_module Exec.Example.case (Or.inr rfl) Exec.Example.case_bounded s hs
+  obtain ⟨md, hmd, _, hfile⟩ := hall ["m"] "m.pyxis" Exec.Example.modM (by simp [Exec.Example.case]) (by decide)
+  obtain ⟨body, hbody⟩ := C14.file_name s ["m"] md
+  exact ⟨s, md, body, hs, hmd, hfile, by rw [hbody]; rfl⟩
+
+end PyxisVerif.CaseLift2.Example
+
+/-! ## why the hypothesis on module paths is needed: a refuting case
+
+Two modules written under the same path `m`: the first defines `T` and a function block `impl T { f }`, the second is
+empty.  `add_module` of the second *replaces* the stored module `m` (no function blocks, no definition paths) while the
+registry keeps `m::T`; the case is accepted, `T` is resolved **without** `f`, and `m::T` is listed in no module, so it
+is emitted in no file.  Hence `C05.case_declared_functions_present` and `C14.case_every_item_in_its_file` are false
+without their hypothesis on the module paths (`DistinctModulePaths` / `(astPaths c.modules).Nodup`). -/
+namespace PyxisVerif.CaseLift2.Dup
+open Gen CaseLift CaseLift2 C09 C02
+
+def gfF : G.Func := { vis := .pub, name := "f", attrs := [.fn "address" [.int 0x10]], args := [.constSelf], ret := none }
+
+def m1 : G.Module :=
+  { defs := [{ vis := .pub, name := "T",
+               inner := .type { stmts := [{ field := .field .pub "x" (.ident "u32"), attrs := [] }], attrs := [] } }],
+    impls := [{ name := "T", attrs := [], fns := [gfF] }] }
+
+def m2 : G.Module := {}
+
+def prio : List Path := [["m", "T"]]
+
+def case : Case :=
+  { id := "dup", ps := 8, prio := prio, modules := [.ast ["m"] "m.pyxis" m1, .ast ["m"] "m2.pyxis" m2], extras := [] }
+
+def s0 : State := C12.stateOf case.initialState
+def s1 : State := (runRound s0 prio).1
+
+theorem init : case.initialState = .ok s0 := C12.eq_ok_stateOf _ (by decide +kernel)
+
+theorem u0 : s0.reg.unresolved case.prio = prio :=
+  unresolved_of_sorted _ _ _ (by decide +kernel) (by decide +kernel)
+theorem u1 : s1.reg.unresolved case.prio = [] :=
+  unresolved_of_sorted _ _ _ (by decide +kernel) (by decide +kernel)
+
+theorem r0 : runRound s0 prio = (s1, .ok ()) := by
+  have : (runRound s0 prio).2 = .ok () := by decide +kernel
+  rw [← this]; rfl
+
+theorem loop : resolveLoop case.prio 4 s0 = .ok s1 := by
+  rw [resolveLoop_step _ 3 s0 s1 _ u0 rfl r0 (by rw [u1]; decide +kernel),
+      resolveLoop_done _ 2 s1 u1]
+
+theorem nItems : (s0.reg.types.filter fun e => !e.2.isResolved).length = 1 := by decide +kernel
+
+theorem run_ok : isOkB case.run = true := by
+  unfold Case.run
+  rw [init]
+  simp only []
+  unfold State.build
+  simp only []
+  rw [nItems, loop]
+  decide +kernel
+
+/-- the final state: the registry and the definition paths of the stored modules are those after the one round -/
+theorem run_final (s : State) (h : case.run = .ok s) :
+    s.reg = s1.reg ∧ s.modules.map (fun e => (e.1, e.2.defPaths)) = s1.modules.map (fun e => (e.1, e.2.defPaths)) := by
+  unfold Case.run at h
+  rw [init] at h
+  simp only [] at h
+  obtain ⟨s', hl, ms, hms, rfl⟩ := build_ok_inv s0 case.prio s h
+  rw [nItems, loop] at hl
+  cases hl
+  exact ⟨rfl, (final_modules s1.reg s1.modules ms hms).2⟩
+
+theorem case_bounded : C12.CaseBounded case := by
+  intro path file m hm
+  simp only [case, List.mem_cons, List.not_mem_nil, or_false, ModEnt.ast.injEq] at hm
+  rcases hm with ⟨_, _, rfl⟩ | ⟨_, _, rfl⟩
+  · refine ⟨?_, fun xt hx => by cases hx⟩
+    intro d hd
+    simp only [m1, List.mem_cons, List.not_mem_nil, or_false] at hd
+    subst hd
+    intro n args z ha
+    cases ha
+  · exact ⟨(fun d hd => by cases hd), (fun xt hx => by cases hx)⟩
+
+def itemT : ItemDef := (s1.reg.get ["m", "T"]).getD default
+def resT : Resolved := itemT.resolved?.getD default
+def tdT : TypeDefn := (Exec.typeDefn? s1.reg ["m", "T"]).getD {}
+
+/-- the case is accepted, bounded, at pointer width 8; `m::T` is an emitted struct of the final registry, built from a
+    definition written in the case, and `f` is written in a function block for `m::T` in the case – but `T` has no
+    function at all -/
+theorem facts : ∃ s, case.run = .ok s ∧ s.reg.get ["m", "T"] = some itemT ∧ itemT.state = .res resT ∧
+    resT.inner = .type tdT ∧ itemT.cat = .defined ∧ (∃ item, Declared case ["m", "T"] item) ∧
+    DeclaredFn case ["m", "T"] gfF ∧ tdT.fns = [] ∧
+    Path.parent? ["m", "T"] = some ["m"] ∧ ∀ md, (["m"], md) ∈ s.modules → ["m", "T"] ∉ md.defPaths := by
+  obtain ⟨s, hs⟩ := (isOkB_iff _).mp run_ok
+  obtain ⟨hreg, hmods⟩ := run_final s hs
+  refine ⟨s, hs, by rw [hreg]; decide +kernel, by decide +kernel, by decide +kernel, by decide +kernel, ?_, ?_,
+    by decide +kernel, by decide +kernel, ?_⟩
+  · exact ⟨_, ["m"], "m.pyxis", m1, by simp [case], List.mem_cons_self, rfl⟩
+  · exact ⟨["m"], { name := "T", attrs := [], fns := [gfF] }, ⟨"m.pyxis", m1, by simp [case], List.mem_cons_self⟩, rfl,
+      List.mem_cons_self⟩
+  · intro md hmd hq
+    obtain ⟨e, he, hfe⟩ := mem_of_map_eq _ _ _ hmods (["m"], md) hmd
+    simp only [Prod.mk.injEq] at hfe
+    have hall : ∀ e ∈ s1.modules, ["m", "T"] ∉ e.2.defPaths := by decide +kernel
+    exact hall e he (by rw [← hfe.2]; exact hq)
+
+end PyxisVerif.CaseLift2.Dup
+
+namespace PyxisVerif.C05
+open Gen CaseLift CaseLift2
+
+/-- **`case_declared_functions_present` without the hypothesis on module paths is refuted**: an accepted case (pointer
+    width 8, `isize` literals) with an emitted struct `p` of a non-root module built from a definition written in the
+    case, and a function `gf` written in a function block for `p` in the case, that no function of the struct in the final
+    registry is built from -/
+theorem case_declared_functions_present_refuted :
+    ∃ (c : Case) (s : State) (p : Path) (i : ItemDef) (r : Resolved) (td : TypeDefn) (gf : G.Func),
+      (c.ps = 4 ∨ c.ps = 8) ∧ C12.CaseBounded c ∧ c.run = .ok s ∧
+      s.reg.get p = some i ∧ i.state = .res r ∧ r.inner = .type td ∧ i.cat = .defined ∧ 2 ≤ p.length ∧
+      (∃ item, Declared c p item) ∧ DeclaredFn c p gf ∧ ¬ ∃ sf ∈ td.fns, sf.name = gf.name := by
+  obtain ⟨s, hs, hg, hst, hin, hc, hD, hF, hnil, _⟩ := Dup.facts
+  refine ⟨Dup.case, s, ["m", "T"], Dup.itemT, Dup.resT, Dup.tdT, Dup.gfF, Or.inr rfl, Dup.case_bounded, hs, hg, hst, hin,
+    hc, by decide, hD, hF, ?_⟩
+  rintro ⟨sf, hsf, _⟩
+  rw [hnil] at hsf
+  cases hsf
+
+end PyxisVerif.C05
+
+namespace PyxisVerif.C14
+open Gen CaseLift CaseLift2
+
+/-- **`case_every_item_in_its_file` without the hypothesis on module paths is refuted**: an accepted case with a
+    resolved, defined entry of the final registry under a non-root module path that is listed in no stored module (so it
+    is printed in no file) -/
+theorem case_every_item_in_its_file_refuted :
+    ∃ (c : Case) (s : State) (q : Path) (i : ItemDef) (r : Resolved) (par : Path),
+      (c.ps = 4 ∨ c.ps = 8) ∧ C12.CaseBounded c ∧ c.run = .ok s ∧
+      s.reg.get q = some i ∧ i.state = .res r ∧ i.cat = .defined ∧ Path.parent? q = some par ∧ par ≠ [] ∧
+      ¬ ∃ md, (par, md) ∈ s.modules ∧ q ∈ md.defPaths := by
+  obtain ⟨s, hs, hg, hst, _, hc, _, _, _, hpar, hno⟩ := CaseLift2.Dup.facts
+  refine ⟨CaseLift2.Dup.case, s, ["m", "T"], CaseLift2.Dup.itemT, CaseLift2.Dup.resT, ["m"], Or.inr rfl,
+    CaseLift2.Dup.case_bounded, hs, hg, hst, hc, hpar, by decide, ?_⟩
+  rintro ⟨md, hmd, hq⟩
+  exact hno md hmd hq
+
+end PyxisVerif.C14
